@@ -167,9 +167,11 @@ func (l *lexer) backup() {
 }
 
 func (l *lexer) peek() string {
-	val := l.next()
-	l.backup()
-	return val
+	if l.pos >= len(l.input) {
+		// next does not advance at the end of input, so there is nothing to back up over.
+		return delimEOF
+	}
+	return l.input[l.pos : l.pos+1]
 }
 
 // emit will create a token with a value starting from the last emission
@@ -304,7 +306,7 @@ func (l *lexer) tryLexOperator() bool {
 	} else if op == "%" {
 		// Ensure this is not a tag close token "%}".
 		// Go's regexp engine does not support negative lookahead.
-		if l.input[l.pos+1:l.pos+2] == "}" {
+		if strings.HasPrefix(l.input[l.pos+1:], "}") {
 			return false
 		}
 	} else if isAlpha(op) {
@@ -316,8 +318,7 @@ func (l *lexer) tryLexOperator() bool {
 			return false
 		}
 	} else if op == delimTrimWhitespace {
-		switch l.input[l.pos+1 : l.pos+3] {
-		case delimClosePrint, delimCloseTag:
+		if rest := l.input[l.pos+1:]; strings.HasPrefix(rest, delimClosePrint) || strings.HasPrefix(rest, delimCloseTag) {
 			return false
 		}
 	}
@@ -340,6 +341,9 @@ func isAlpha(s string) bool {
 func lexSpace(l *lexer) stateFn {
 	for {
 		str := l.next()
+		if str == delimEOF {
+			break
+		}
 		if !isSpace(str) {
 			l.backup()
 			break
@@ -354,6 +358,9 @@ func lexSpace(l *lexer) stateFn {
 func lexNumber(l *lexer) stateFn {
 	for {
 		str := l.next()
+		if str == delimEOF {
+			break
+		}
 		if !isNumeric(str) {
 			l.backup()
 			break
@@ -368,6 +375,9 @@ func lexNumber(l *lexer) stateFn {
 func lexPunctuation(l *lexer) stateFn {
 	for {
 		str := l.next()
+		if str == delimEOF {
+			break
+		}
 		if !isPunctuation(str) {
 			l.backup()
 			break
@@ -500,7 +510,7 @@ func lexCommentOpen(l *lexer) stateFn {
 		til = len(l.input[l.start:])
 	}
 	l.pos += til
-	if string(l.input[l.pos-1]) == delimTrimWhitespace {
+	if l.pos > l.start && string(l.input[l.pos-1]) == delimTrimWhitespace {
 		l.backup()
 		l.emit(tokenText)
 		l.next()
